@@ -1162,8 +1162,11 @@ impl Relation {
         builder.start_node(SyntaxKind::RELATION.into());
         builder.token(IDENT.into(), self.name().as_str());
         if let Some(archqual) = self.archqual() {
+            // In an ARCHQUAL node, as the parser builds it: archqual() looks for that node
+            builder.start_node(ARCHQUAL.into());
             builder.token(COLON.into(), ":");
             builder.token(IDENT.into(), archqual.as_str());
+            builder.finish_node();
         }
         if let Some((vc, version)) = self.version() {
             builder.token(WHITESPACE.into(), " ");
